@@ -399,6 +399,10 @@ bool ManifestParser::ParseEdge(string* err) {
         remove(edge->inputs_.begin(), edge->inputs_.end(), out);
     if (new_end != edge->inputs_.end()) {
       edge->inputs_.erase(new_end, edge->inputs_.end());
+      // The node must not keep listing this edge as one of its consumers:
+      // walks over out_edges() (e.g. Plan::CleanNode) would come back to the
+      // edge from its own output and never end.
+      out->RemoveOutEdge(edge);
       if (!quiet_) {
         Warning("phony target '%s' names itself as an input; "
                 "ignoring [-w phonycycle=warn]",
